@@ -121,6 +121,23 @@ def records_frozen(ck, rule, skip_modules=("src.diagnostic.alignment_comparer", 
                                  f"an element of `{ast.unparse(b)}` is replaced in place: a record that was already created (and is "
                                  "written again in the 'all' / 'separate' files) now lists other pairs than its header was derived from",
                                  found=ast.unparse(node)[:160], required="a new list / a new record")
+            # a local that *is* the record's list (bound once to <record>.segments / .alignedPairs, no copy) and is changed in place
+            if isinstance(node, ast.Call) and isinstance(node.func, ast.Attribute) and node.func.attr in MUTATORS and \
+                    isinstance(node.func.value, ast.Name):
+                nm = node.func.value.id
+                binds = [x for x in _iter_own_nodes(f.node) if isinstance(x, ast.Assign) and len(x.targets) == 1 and
+                         isinstance(x.targets[0], ast.Name) and x.targets[0].id == nm]
+                # the binding in force at the call: the last store of the name in front of it (by line) must be that assignment
+                before = [x for x in ast.walk(f.node) if isinstance(x, ast.Name) and x.id == nm and isinstance(x.ctx, ast.Store)
+                          and x.lineno < node.lineno]
+                binds = [b for b in binds if before and b.targets[0] is max(before, key=lambda x: (x.lineno, x.col_offset))]
+                in_loop_between = False
+                if len(binds) == 1 and isinstance(binds[0].value, ast.Attribute) and binds[0].value.attr in _CONTENT_ATTRS \
+                        and not base_is_own_self(binds[0].value):
+                    ck.violation(rule, short(f) + ":" + binds[0].value.attr + "." + node.func.attr, where(f, node),
+                                 f"`{nm}` is the record's own list ({ast.unparse(binds[0].value)}, not a copy) and is changed in place by "
+                                 f".{node.func.attr}(): the record's header was derived from the previous content",
+                                 found=ast.unparse(binds[0])[:80] + "; " + ast.unparse(node)[:80], required="a new list / a new record (sorted(...))")
             if isinstance(node, ast.Call) and isinstance(node.func, ast.Attribute) and node.func.attr in MUTATORS and \
                     isinstance(node.func.value, ast.Attribute) and node.func.value.attr in _CONTENT_ATTRS and \
                     not base_is_own_self(node.func.value):
